@@ -183,6 +183,7 @@ func (cl *CollectorWorker) collect() {
 				// Note latest cache size for GetCacheSize()
 				cacheSize := cl.cache.GetCacheEntryCount()
 				cl.lastCacheSize.Store(int64(cacheSize))
+				verifEmit("tick", "w", cl.ID)
 			case sp, ok := <-cl.incoming:
 				if !ok {
 					// channel's been closed; we should shut down.
@@ -199,6 +200,7 @@ func (cl *CollectorWorker) collect() {
 				cl.processSpan(ctx, sp)
 			case sendEarly := <-cl.sendEarly:
 				cl.sendTracesEarly(ctx, sendEarly.bytesToSend)
+				verifEmit("ejected", "w", cl.ID, "bytes", sendEarly.bytesToSend)
 				sendEarly.wg.Done()
 			case <-cl.reload:
 				// Clear samplers on config reload
@@ -207,6 +209,7 @@ func (cl *CollectorWorker) collect() {
 				if cl.sampleCache != nil {
 					cl.sampleCache.Resize(cl.parent.Config.GetSampleCacheConfig())
 				}
+				verifEmit("worker_reloaded", "w", cl.ID)
 			case ch := <-cl.pause:
 				// We got a pause signal, wait until it unblocks.
 				<-ch
@@ -225,6 +228,7 @@ func (cl *CollectorWorker) processSpan(ctx context.Context, sp *types.Span) {
 		cl.localSpanProcessed++
 		cl.localSpansWaiting.Add(-1)
 		span.End()
+		verifEmit("processed", "w", cl.ID, "t", sp.TraceID)
 	}()
 
 	tcfg := cl.parent.Config.GetTracesConfig()
@@ -282,6 +286,9 @@ func (cl *CollectorWorker) processSpan(ctx context.Context, sp *types.Span) {
 
 	// great! trace is live. add the span.
 	trace.AddSpan(sp)
+	defer func() {
+		verifEmit("buffered", "w", cl.ID, "t", sp.TraceID, "n", trace.DescendantCount(), "send_by", trace.SendBy)
+	}()
 
 	// we may override these values in conditions below
 	var markTraceForSending bool
@@ -465,6 +472,7 @@ func (cl *CollectorWorker) makeDecision(ctx context.Context, trace *types.Trace,
 	cl.parent.Metrics.Histogram("trace_aggregate_sample_rate", float64(rate))
 
 	cl.sampleCache.Record(trace, shouldSend, reason)
+	verifEmit("decision", "w", cl.ID, "t", trace.TraceID, "keep", shouldSend, "rate", rate, "reason", reason, "send_reason", sendReason, "n", trace.DescendantCount(), "root", trace.RootSpan != nil)
 
 	var hasRoot bool
 	if trace.RootSpan != nil {
